@@ -226,9 +226,31 @@ def serialization_faults(ext):
     return out
 
 
-def encoding_faults(enc):
-    bad = UNENCODABLE[enc]
+def unencodable_chars(enc):
+    """
+    Characters of different classes that `enc` cannot encode: a letter of another script, the Unicode line and
+    paragraph separators and NEL (line boundaries for str.splitlines, ordinary characters for the file format),
+    a lone surrogate.
+    """
+    out = []
+    for ch in (UNENCODABLE[enc], "\u2028", "\u2029", "\x85", "\ud800"):
+        try:
+            ch.encode(enc)
+        except UnicodeEncodeError:
+            if ch not in out:
+                out.append(ch)
+    return out
 
+
+def encoding_faults(enc):
+    out = {}
+    for bad in unencodable_chars(enc):
+        for name, fn in _encoding_faults_for(bad).items():
+            out[f"{name}, U+{ord(bad):04X}"] = fn
+    return out
+
+
+def _encoding_faults_for(bad):
     def first(sf):
         k = next(iter(sf))
         sf[k] = "x" + bad
